@@ -574,7 +574,7 @@ func shapes(thorough bool) []shape {
 
 func main() {
 	run := report.New("C07")
-	run.SetBudget(5*60e9, 40*60e9)
+	run.SetBudget(5*60e9, 20*60e9)
 	ss := shapes(run.Thorough())
 	shard.Run(run, 0, nil, func(si shard.Info, out *shard.Out) {
 		o := world.GenesisG1()
@@ -585,6 +585,9 @@ func main() {
 			panic(err)
 		}
 		e := &env{run: run, chainR: r}
+		if si.I == 0 {
+			godHandover(out)
+		}
 		for i, s := range ss {
 			if !si.Mine(i) {
 				continue
@@ -605,4 +608,80 @@ func main() {
 	run.Assume = append(run.Assume, "the reference committee and quorum predicate are written from the protocol description (sorted voting units, seeded permutation, pool collapsing, approved subtraction)",
 		"large committees use boundary families of genuine vote counts (0, q-1, q, q+1); god-only certificates are exercised by C08")
 	run.Finish("model_checking", "states = synthesised validator sets (every combination of online/discriminated/delegation per member up to the size bound; plain and pooled sets of 5..12 and around the committee arithmetic) x 3 steps; transitions = certificates: k genuine distinct approved votes (all k up to q+1, boundary families for large committees) x 10 junk kinds (duplicate, same key other flag, validated non-member, unknown key, other hash/parent/round/step, garbage) x first/last placement, decided by the real ValidateBlockCert; the real countVotes fed through the real Votes.AddVote; committee draw vs an independent reference, a cloned cache and a cache loaded under reversed iteration order")
+}
+
+// godHandover: god-only committees on real chains. After a ChangeGodAddressTx the node that
+// never restarted, a node restarted on the same database and a node that only later joined
+// must give the same verdict on certificates signed by the former and by the new god, and
+// that verdict must follow the god in office (the committee of a network without online
+// identities is exactly the god address of the state).
+func godHandover(out *shard.Out) {
+	for _, sc := range []struct {
+		name string
+		opts replica.Opts
+	}{{"G1 god only", world.GenesisG1()}, {"G2 nobody online", world.GenesisG2()}} {
+		for _, gap := range []int{0, 1, 2} { // blocks between the hand-over and the certified block
+			A, err := world.OpenAs(sc.opts, nil, world.T0, world.G)
+			if err != nil {
+				panic(err)
+			}
+			now := int64(world.T0)
+			b := world.NewB(A)
+			tx := b.Tx(world.Spec{From: world.G, To: world.PA(world.X1), Type: types.ChangeGodAddressTx})
+			if errs := world.Submit(A, []*types.Transaction{tx}); errs[0] != nil {
+				panic(errs[0])
+			}
+			now += 20
+			blk := A.Propose(now)
+			if len(blk.Body.Transactions) != 1 || A.Add(blk) != nil {
+				panic("god hand-over block not built")
+			}
+			// from here on the new god (key X1) proposes; A follows without restart
+			for i := 0; i <= gap; i++ {
+				N, err := world.OpenAs(sc.opts, replica.Snapshot(A.DB), now, world.X1)
+				if err != nil {
+					panic(err)
+				}
+				now += 20
+				nb := N.Propose(now)
+				if i < gap {
+					if err := A.Add(nb); err != nil {
+						out.Violation("god-handover:block-of-new-god-rejected", fmt.Sprintf("%s: the long-running node rejects a block proposed by the new god: %v", sc.name, err), nil)
+						return
+					}
+					continue
+				}
+				// nb is the block to certify, on top of A's head
+				F, err := world.OpenAs(sc.opts, replica.Snapshot(A.DB), now, world.G) // restarted node
+				if err != nil {
+					panic(err)
+				}
+				for _, step := range []uint8{1, 2, types.Final} {
+					for _, signer := range []struct {
+						who  string
+						key  int
+						want bool
+					}{{"new god", world.X1, true}, {"former god", world.G, false}} {
+						vote := &types.Vote{Header: &types.VoteHeader{Round: nb.Height(), Step: step, ParentHash: nb.Header.ParentHash(), VotedHash: nb.Header.Hash()}}
+						h := crypto.SignatureHash(vote)
+						vote.Signature = replica.Sec(signer.key).Sign(h[:])
+						cert := (&types.FullBlockCert{Votes: []*types.Vote{vote}}).Compress()
+						errA := A.Chain.ValidateBlockCert(A.Chain.Head, nb.Header, cert, A.App.ValidatorsCache, nil)
+						errF := F.Chain.ValidateBlockCert(F.Chain.Head, nb.Header, cert, F.App.ValidatorsCache, nil)
+						out.Count("certificates", 2)
+						out.Count("god_handover_certificates", 2)
+						if (errA == nil) != (errF == nil) {
+							out.Violation("god-handover:long-running-vs-restarted", fmt.Sprintf("%s, %d block(s) after the hand-over, step %d: certificate signed by the %s: long-running node says %v, restarted node says %v", sc.name, gap, step, signer.who, errA, errF), nil)
+							return
+						}
+						if (errA == nil) != signer.want {
+							out.Violation("god-handover:verdict", fmt.Sprintf("%s, %d block(s) after the hand-over, step %d: certificate signed by the %s: accepted=%v", sc.name, gap, step, signer.who, errA == nil), nil)
+							return
+						}
+						out.Outcome(fmt.Sprintf("god-handover %s accepted=%v", signer.who, errA == nil))
+					}
+				}
+			}
+		}
+	}
 }
